@@ -94,3 +94,6 @@ func (r *Rand) Perm(n int) []int {
 
 // Fork derives an independent generator (for sub-streams such as per-task map order).
 func (r *Rand) Fork() *Rand { return NewRand(r.Uint64()) }
+
+// Pick2 returns one of the ints.
+func (r *Rand) Pick2(xs ...int) int { return xs[r.Intn(len(xs))] }
